@@ -133,7 +133,10 @@ def oracle_sift(case, rec):
     got = np.asarray(got)
     mf = np.asarray(mf, dtype=float)
     src = freqs if isinstance(freqs, str) else 'list' if isinstance(freqs, list) else 'float'
-    if got_n.shape != got.shape or not np.array_equal(got_n, got):
+    if src == 'if' and not (np.all(np.isfinite(mf)) and 0 < mf[0] < 0.5):
+        raise Discard("'if': the instantaneous-frequency estimate of the first IMF is undefined or outside (0, 0.5) "
+                      "(e.g. an IMF with < 2 maxima has no amplitude envelope)")
+    if got_n.shape != got.shape or not np.array_equal(got_n, got, equal_nan=True):
         raise Violation('C07/mask_sift/depends-on-nprocesses', 'nprocesses=%d' % case['nproc'])
     K = got.shape[1]
     if got.shape[0] != x.size or not np.all(np.isfinite(got)):
@@ -152,8 +155,6 @@ def oracle_sift(case, rec):
             z0 = zero_crossings(np.asarray(first)[:, 0]) / x.size / 4
         else:
             z0 = mf[0]
-            if not (0 < z0 < 0.5):
-                raise Discard("'if' first mask frequency outside (0, 0.5): %r" % z0)
         ef = np.array([z0 / case['step'] ** i for i in range(case['max_imfs'])])
         if mf.shape != ef.shape or not np.allclose(mf, ef, rtol=1e-12, atol=0):
             raise Violation('C07/mask_sift/frequency-ladder/' + src, 'got %r expected %r' % (mf.tolist(), ef.tolist()))
